@@ -89,6 +89,11 @@ CATALOGUE = [
     ("non-symbol-in-extern", ["{I}«.extern »5"], "meta-type-mismatch", "error", ("T",)),
     ("string-where-number", ["{I}«.blkb »\"abc\""], None, "error", None),
     ("code-block-not-taken", ["{I}«clr r0 »{ nop }"], "wrong-operands", "error", ("T",)),
+    # negative values where only a count / code makes sense (operands without a fixed width)
+    ("repeat-negative", ["{I}«.repeat »-1 { nop }"], "value-out-of-bounds", "error", ("T", "T+1")),
+    ("repeat-negative-symbol", ["rpn9 = 2 - 5", "{I}«.repeat »rpn9 { nop }"], "value-out-of-bounds", "error", ("T",)),
+    ("align-negative", ["{I}«.align »-4"], "value-out-of-bounds", "error", ("T", "T+1")),
+    ("rad50-negative-code", ["{I}«.rad50 /AB/ <»-3> /C/"], "value-out-of-bounds", "error", ("T", "T+1")),
     ("align-zero", ["{I}«.align 0"], "value-out-of-bounds", "error", ("S",)),
 ]
 
